@@ -43,8 +43,14 @@ def table_cap(c):
     return n + 2 + 1
 
 
+# CBMC 6.11 resolves `item->u.data->...` exactly only for items in arrays that are NOT split into fields; whole-array objects of 65 elements
+# are slow to assign (profiled), so the threshold is lowered instead and the data items live in an 8-element array
+FS_FLAGS = ["--max-field-sensitivity-array-size", "7"]
+FS_DEFS = ["H_ARR=8", "H_ND_MAX=16"]
+
 LOOPS = {"harness#0": 4, "harness#1": 6, "h_build_module#0": 3, "h_step_load#0": 3, "h_step_load#1": 3, "h_step_load#2": 3,
          "h_step_link#0": 4, "h_step_link#1": 3, "h_step_link#2": 4, "h_step_link#3": 3, "h_step_link#4": 4,
+         "HTAB_MIR_item_t_do#0": 17, "HTAB_string_t_do#0": 17, "HTAB_val_t_clear#0": 17,
          "MIR_load_module#0": 6, "load_bss_data_section#0": 3, "load_bss_data_section#1": 3,
          "MIR_link#0": 6, "MIR_link#1": 6, "MIR_link#2": 6, "MIR_link#3": 6, "MIR_link#4": 6, "MIR_link#5": 6,
          "simplify_func#0": 1, "simplify_func#1": 1, "simplify_func#2": 1, "simplify_func#3": 1, "simplify_func#4": 1,
